@@ -306,6 +306,55 @@ Fixpoint steady_consec (prev : list (text * list Z)) (polls : list (list (text *
   | [] => true
   | p :: r => no_decrease prev p && steady_consec p r
   end.
+(* ---- histories in which counters do restart: what the default nowrap=True must report.
+   Ghost state: for every device of the previous poll's raw dict, per field, the offset = the sum of the
+   values from which that counter restarted WHILE THE DEVICE STAYED LISTED.  A device that is not in
+   the current raw dict loses its offsets (whatever else happens in that poll); when it is listed
+   again it starts raw. *)
+Definition rows := list (text * list Z).
+Fixpoint restart (o p v : list Z) {struct v} : list Z :=
+  match v with
+  | [] => []
+  | x :: v' =>
+    match p with
+    | [] => []                                       (* tuples of one table have one width *)
+    | pj :: p' => (hd 0 o + (if x <? pj then pj else 0)) :: restart (tl o) p' v'
+    end
+  end.
+Fixpoint vadd (v o : list Z) : list Z :=
+  match v with
+  | [] => []
+  | x :: v' => (x + hd 0 o) :: vadd v' (tl o)
+  end.
+Definition off_of (k : text) (off : rows) : list Z := match row_get k off with Some o => o | None => [] end.
+Definition next_offsets (prev off cur : rows) : rows :=
+  map (fun kv => (fst kv, match row_get (fst kv) prev with
+                          | None => map (fun _ => 0) (snd kv)           (* new or returning device: raw *)
+                          | Some p => restart (off_of (fst kv) off) p (snd kv)
+                          end)) cur.
+Definition reported (cur off : rows) : rows := map (fun kv => (fst kv, vadd (snd kv) (off_of (fst kv) off))) cur.
+(* the raw dicts the successive calls must see reported, from a cleared cache *)
+Fixpoint spec_wrap_hist (prev off : rows) (polls : list rows) : list rows :=
+  match polls with
+  | [] => []
+  | cur :: r => let off' := next_offsets prev off cur in reported cur off' :: spec_wrap_hist cur off' r
+  end.
+(* the documented answer built from reported rows *)
+Fixpoint vsum (rs : list (list Z)) : list Z :=
+  match rs with
+  | [] => []
+  | [r] => r
+  | r :: rest => vadd r (vsum rest)
+  end.
+Definition answer_of_rows (names : list bytes) (per : bool) (rs : rows) : front_res :=
+  match rs with
+  | [] => if per then RDict [] else RNone
+  | _ => if per then RDict (map (fun kv => (fst kv, combine names (snd kv))) rs)
+         else RTuple (combine names (vsum (map snd rs)))
+  end.
+Definition nic_names : list bytes := map fst (nt_nic nic_zero).
+Definition disk_names : list bytes := map fst (nt_disk disk_zero).
+
 (* ------------------------------------------------ disk_usage *)
 (* property text: used = total - free-for-root, free = space available to unprivileged users,
    percent = used / (used + free) * 100  (0 when used + free = 0).
